@@ -1,6 +1,7 @@
 package main
 
 import (
+	"bufio"
 	"bytes"
 	stdflate "compress/flate"
 	"crypto/sha256"
@@ -8,6 +9,7 @@ import (
 	"io"
 	"io/ioutil"
 	"sync"
+	"time"
 
 	"github.com/dsnet/compress/brotli"
 	"github.com/dsnet/compress/bzip2"
@@ -43,6 +45,65 @@ func sharedDigest() [32]byte {
 	return d
 }
 
+// c19Src: the source kinds the Readers treat differently (Peek/Discard, ReadByte only, Read only
+// behind the Reader's own bufio, a caller's bufio).
+func c19Src(k int, d []byte) io.Reader {
+	switch k % 4 {
+	case 1:
+		return &vhlib.ByteOnly{B: d}
+	case 2:
+		return &vhlib.ReadOnly{B: d}
+	case 3:
+		return bufio.NewReaderSize(&vhlib.ReadOnly{B: d, Cap: 7}, 16)
+	}
+	return bytes.NewReader(d)
+}
+
+func c19SrcName(k int) string {
+	return []string{"bytes.Reader", "ByteReader", "ReadOnly", "bufio16"}[k%4]
+}
+
+// gate parks the goroutine that makes the at-th call through it until released.
+type gate struct {
+	at, calls int
+	entered   chan struct{}
+	release   chan struct{}
+}
+
+func newGate(at int) *gate {
+	return &gate{at: at, entered: make(chan struct{}), release: make(chan struct{})}
+}
+
+func (g *gate) hit() {
+	g.calls++
+	if g.calls == g.at {
+		close(g.entered)
+		<-g.release
+	}
+}
+
+type gateSink struct {
+	g *gate
+	w io.Writer
+}
+
+func (s gateSink) Write(p []byte) (int, error) { s.g.hit(); return s.w.Write(p) }
+
+type gateSrc struct {
+	g *gate
+	r io.Reader
+}
+
+func (s gateSrc) Read(p []byte) (int, error) { s.g.hit(); return s.r.Read(p) }
+
+type gateSeekSrc struct {
+	g *gate
+	r io.ReadSeeker
+}
+
+func (s gateSeekSrc) Read(p []byte) (int, error)         { s.g.hit(); return s.r.Read(p) }
+func (s gateSeekSrc) Seek(o int64, w int) (int64, error) { return s.r.Seek(o, w) }
+
 type job struct {
 	Name string
 	Run  func() string // returns a digest of everything observable
@@ -63,18 +124,19 @@ func c19Jobs(r *vhlib.Run) []job {
 	}
 	for _, c := range codecs() {
 		c := c
-		for k := 0; k < 3; k++ {
+		for k := 0; k < 4; k++ {
 			s := c.Valid(rng, 20000)
 			bad := append([]byte{}, s.Data...)
 			if len(bad) > 3 {
 				bad[len(bad)/2] ^= 0x10
 			}
-			jobs = append(jobs, job{c.Name + ".Reader", func() string {
-				z := c.New(bytes.NewReader(s.Data))
+			k := k
+			jobs = append(jobs, job{c.Name + ".Reader/" + c19SrcName(k), func() string {
+				z := c.New(c19Src(k, s.Data))
 				out, err := readCap(z)
-				z.Reset(bytes.NewReader(bad))
+				z.Reset(c19Src(k+1, bad))
 				out2, err2 := readCap(z)
-				z.Reset(bytes.NewReader(s.Data))
+				z.Reset(c19Src(k+2, s.Data))
 				out3, _ := readCap(z)
 				return sum(out, []byte(vhlib.ErrClass(err)), out2, []byte(vhlib.ErrClass(err2)), out3)
 			}})
@@ -267,6 +329,72 @@ func runC19(r *vhlib.Run) {
 			}
 		}
 	}
+	// instances of DIFFERENT types and over different kinds of source take turns in one
+	// goroutine, and further instances are constructed and Reset in between: a per-instance mode
+	// kept in a package-level variable shows here
+	{
+		type inst struct {
+			name  string
+			z     io.Reader
+			want  []byte
+			got   []byte
+			err   error
+			buf   []byte
+			fresh func() io.Reader
+		}
+		for round := 0; round < 8; round++ {
+			var set []*inst
+			cs := codecs()
+			for n := 2 + r.Rng.Intn(3); n > 0; n-- {
+				c := cs[r.Rng.Intn(len(cs))]
+				d := c.Valid(r.Rng, 30000).Data
+				if n%2 == 0 && len(c19Special[c.Name]) > 0 {
+					d = c19Special[c.Name][r.Rng.Intn(len(c19Special[c.Name]))]
+				}
+				k := r.Rng.Intn(4)
+				if round%2 == 0 {
+					k = 1 // ByteReader-only sources for everybody
+				}
+				want, _ := readCap(c.New(c19Src(k, d)))
+				set = append(set, &inst{name: c.Name + "/" + c19SrcName(k), z: c.New(c19Src(k, d)), want: want, buf: make([]byte, 1+r.Rng.Intn(3000)),
+					fresh: func() io.Reader { return c.New(c19Src(k, d)) }})
+			}
+			for live := len(set); live > 0; {
+				live = 0
+				for _, it := range set {
+					if it.err != nil || len(it.got) > 64<<20 {
+						continue
+					}
+					live++
+					var n int
+					n, it.err = it.z.Read(it.buf)
+					it.got = append(it.got, it.buf[:n]...)
+					if r.Rng.Intn(4) == 0 {
+						// construction (and a first Read) of yet another instance
+						o := set[r.Rng.Intn(len(set))].fresh()
+						if r.Rng.Intn(2) == 0 {
+							o.Read(make([]byte, 1))
+						}
+					}
+				}
+			}
+			for _, it := range set {
+				r.Eval("interleaved-mixed:"+it.name, true, []byte(fmt.Sprint(round, it.name)))
+				if !bytes.Equal(it.got, it.want) {
+					var names []string
+					for _, o := range set {
+						names = append(names, o.name)
+					}
+					r.Violate("result-differs-when-interleaved", fmt.Sprintf("%s taking turns with %v in one goroutine: %d bytes then %v, alone %d bytes", it.name, names, len(it.got), it.err, len(it.want)),
+						map[string]interface{}{"instances": names, "round": round})
+					break
+				}
+			}
+		}
+	}
+	// an instance whose sink or source does not return (a stalled connection) must not keep
+	// OTHER instances from making progress: locks around state shared by the package
+	c19Stalled(r)
 	// an instance that was closed and is reused through Reset must not share anything with
 	// instances created in between (pools that keep a reference after release):
 	//   a := New(s1); read; a.Close(); b := New(s2); a.Reset(s3); a and b take turns
@@ -390,6 +518,113 @@ func readCap(z io.Reader) ([]byte, error) {
 		}
 		if len(out) > ceil {
 			return out, fmt.Errorf("output exceeds %d bytes", ceil)
+		}
+	}
+}
+
+// c19Stalled: one instance is parked inside a call to its own sink or source; meanwhile every
+// other type of instance must still be able to run to completion.
+func c19Stalled(r *vhlib.Run) {
+	rng := r.Rng
+	type stall struct {
+		name  string
+		calls func() int           // number of sink/source calls of the workload, run alone
+		run   func(g *gate) string // the workload with the gate in place
+	}
+	var stalls []stall
+	for _, wc := range wcodecs() {
+		wc := wc
+		data := vhlib.RandBytes(rng, 3000+rng.Intn(3000))
+		work := func(w io.Writer) string {
+			var keep bytes.Buffer
+			z := wc.New(io.MultiWriter(w, &keep))
+			z.Write(data[:len(data)/2])
+			z.Flush(2)
+			z.Write(data[len(data)/2:])
+			err := z.Close()
+			return fmt.Sprintf("%x %s", sha256.Sum256(keep.Bytes()), vhlib.ErrClass(err))
+		}
+		stalls = append(stalls, stall{wc.Name + ".Writer",
+			func() int { g := newGate(-1); work(gateSink{g, ioutil.Discard}); return g.calls },
+			func(g *gate) string { return work(gateSink{g, ioutil.Discard}) }})
+	}
+	for _, c := range codecs() {
+		c := c
+		d := c.Valid(rng, 20000).Data
+		work := func(src io.Reader) string {
+			out, err := readCap(c.New(src))
+			return fmt.Sprintf("%x %s", sha256.Sum256(out), vhlib.ErrClass(err))
+		}
+		stalls = append(stalls, stall{c.Name + ".Reader",
+			func() int { g := newGate(-1); work(gateSrc{g, &vhlib.ReadOnly{B: d, Cap: 512}}); return g.calls },
+			func(g *gate) string { return work(gateSrc{g, &vhlib.ReadOnly{B: d, Cap: 512}}) }})
+	}
+	{
+		sink, _, _ := makeXFStream(xwCfg{Level: 6, ChunkSize: 64, Index: 4}, []xwOp{{Kind: 'w', Data: vhlib.RandBytes(rng, 3000)}, {Kind: 'c'}})
+		work := func(src io.ReadSeeker) string {
+			xr, err := xflate.NewReader(src, nil)
+			if err != nil {
+				return "open-failed"
+			}
+			out, err := readCap(xr)
+			return fmt.Sprintf("%x %s", sha256.Sum256(out), vhlib.ErrClass(err))
+		}
+		stalls = append(stalls, stall{"xflate.Reader",
+			func() int { g := newGate(-1); work(gateSeekSrc{g, bytes.NewReader(sink)}); return g.calls },
+			func(g *gate) string { return work(gateSeekSrc{g, bytes.NewReader(sink)}) }})
+	}
+	// what the others do meanwhile: one complete run of every type
+	others := func() {
+		for _, s := range stalls {
+			s.run(newGate(-1))
+		}
+	}
+	for _, s := range stalls {
+		n := s.calls()
+		want := s.run(newGate(-1))
+		ats := []int{1, n, n - 1, n - 2, 1 + rng.Intn(n)}
+		if !r.Quick() {
+			for k := 0; k < 12; k++ {
+				ats = append(ats, 1+rng.Intn(n))
+			}
+		}
+		for _, at := range ats {
+			if at < 1 || at > n {
+				continue
+			}
+			g := newGate(at)
+			res := make(chan string, 1)
+			go func() { res <- s.run(g) }()
+			select {
+			case <-g.entered:
+			case got := <-res:
+				if got != want {
+					r.Violate("result-differs-under-concurrency", s.name+": result differs from run to run", map[string]interface{}{"instance": s.name})
+				}
+				continue
+			}
+			done := make(chan struct{})
+			go func() { others(); close(done) }()
+			stalled := false
+			select {
+			case <-done:
+			case <-time.After(20 * time.Second):
+				stalled = true
+			}
+			close(g.release)
+			got := <-res
+			if stalled {
+				<-done
+			}
+			r.Eval("stalled:"+s.name, true, []byte(fmt.Sprint(s.name, at)))
+			if stalled {
+				r.Violate("stalled-instance-blocks-others", fmt.Sprintf("%s parked inside call %d of %d to its own sink/source: the other instances (one of every type, own sinks and sources) did not finish within 20 s", s.name, at, n),
+					map[string]interface{}{"instance": s.name, "call": at, "of": n})
+				return
+			}
+			if got != want {
+				r.Violate("result-differs-under-concurrency", fmt.Sprintf("%s: result after having been parked differs from the result alone", s.name), map[string]interface{}{"instance": s.name, "call": at})
+			}
 		}
 	}
 }
